@@ -92,10 +92,10 @@ CLAIMS.update({
 })
 
 CLAIMS.update({
- "C30": ("alphabet agreement: PEG-alternation reader over grammar.pest vs P-CHARSET (P-VAR over the char switch) of the escape functions",
-         "R30a every character the grammar treats as special for unquoted terms is escaped by lucene_escape; R30b quoted_escape covers PHRASE's needs. Found and fixed the whitespace defect.", "§4 C30"),
- "C32": ("recursion-guard check: dominance of the membership test over the recursive call + SCC analysis of the local call graph",
-         "R32a parse_alias tests alias_stack before descending (hit => Err, miss => push); R32b no recursive cycle bypasses parse_alias. Only the cycle-rejection clause.", "§4 C32"),
+ "C30": ("alphabet agreement: PEG-alternation reader over grammar.pest vs P-CHARSET (P-VAR over the char switch) of the escape functions; formatter-instantiation scan vs NUMERIC_TERM",
+         "R30a every character the grammar treats as special for unquoted terms is escaped by lucene_escape; R30b quoted_escape covers PHRASE's needs; R30c numeric alphabet: float formatters called by the renderers emit only exponent letters NUMERIC_TERM accepts (callee instantiation names from MIR vs grammar.pest). Found and fixed the whitespace defect.", "§4 C30"),
+ "C32": ("recursion-guard check: dominance of the membership test over the recursive call + SCC analysis of the local call graph; dominance of an exactness comparison over float->int casts",
+         "R32a parse_alias tests alias_stack before descending (hit => Err, miss => push); R32b no recursive cycle bypasses parse_alias; R32c (numeric filters) every kept float->integer cast of a Value::Float payload in grok_filter is dominated by an exactness guard (dominator query over cast/compare statements). Cycle-rejection clause and one necessary condition of the filters clause.", "§4 C32"),
  "C33": ("expression-tree extraction of Span::new arguments: unchecked-subtraction and character-vs-byte unit taint; consumer check of Formatter::fmt",
          "R33a no raw subtraction into Span::new outside a reviewed site; R33b Formatter::fmt and its helpers have no unwrap/expect/indexing; R33c no character-unit quantity becomes a byte offset. Found and fixed the template-span defect.", "§4 C33"),
 })
